@@ -14,17 +14,17 @@ import common
 ID = "C11"
 MANIFEST = dict(
     technique="Coq proof (closed-form len = number of elements iteration yields, enumeration theorems, observers as list functions; "
-              "unbounded for ranges/stream(seq)/subsequences/cartesian powers/adaptors, exhaustive for permutations/combinations of <= 6 things) "
+              "unbounded for ranges/stream(seq)/subsequences/cartesian powers/combinations/adaptors, exhaustive for permutations of <= 6 things) "
               "+ correspondence model/implementation/itertools oracle over every small constructor x drop position x observation order",
     text="Machine-checked theorems (Coq 8.16, no axioms) about a Gallina transcription of src/streams.rs and WrappedVec: one-step lemmas "
          "len s = 1 + len (next s) / len s = 0 and, from them, len = number of elements iteration yields for every state of Range (any start/end/step in Z, "
-         "any sign), stream(seq), Subsequences (binary counter), CartesianPower (mixed radix) and, by exhaustive computation lifted with forallb_forall, "
-         "Permutations and Combinations of at most 6 things; each constructor enumerates exactly its documented set without repetition in the documented order; "
+         "any sign), stream(seq), Subsequences (binary counter), CartesianPower (mixed radix), Combinations (every n and k; default len) and, by exhaustive "
+         "computation lifted with forallb_forall, Permutations of at most 6 things; each constructor enumerates exactly its documented set without repetition in the documented order; "
          "lazy map/filter/zip list map/filter/zip of the inner lists; reverse/last/in/truthiness/unpacking are the list functions of list(s); consumers that hold a "
          "second reference never advance the variable's stream; iota/repeat/cycle/iterate prefixes follow their recurrences and len is infinite. The model is tied to "
          "/repo on every run by programs that bind each small stream state to a variable and apply a random order of observations, compared with the model and with Python itertools/range.",
     note="Trusted: Coq kernel; hand-written model Seq/Streams.v (tie to the code is the correspondence run, differential testing); extraction + OCaml runner; Rust harness; "
-         "Python oracle. Permutations/Combinations theorems are bounded (base length <= 6, stated in the theorem). Element functions of lazy_map/lazy_filter/lazy_zip/iterate are total "
+         "Python oracle. The Permutations theorems are bounded (base length <= 6, stated in the theorem). Element functions of lazy_map/lazy_filter/lazy_zip/iterate are total "
          "in the model (erroring or `break`ing callbacks are not modelled). Known findings: len of a range with >= 2^64 elements reports infinity; len of permutations/subsequences/cartesian "
          "powers whose count (or the power accumulated next to it) does not fit usize panics in a debug build. Negative indices/slices of infinite streams other than repeat/cycle are outside the property.",
     design="6-C11")
@@ -607,7 +607,7 @@ def run(ctx):
     })
     ctx.assumptions += ["element functions passed to lazy_map/lazy_filter/iterate are total and pure (x*2+1, x%2==0)",
                         "base lists hold distinct integers 10,11,...; the theorems are over an abstract element type",
-                        "Permutations/Combinations theorems are bounded by base length <= 6"]
+                        "Permutations theorems are bounded by base length <= 6"]
     return common.conclude(ctx)
 
 
